@@ -13,7 +13,8 @@ A bit mismatch is a broken correspondence ("model").  It is ALSO a failing input
 ("spec") when the Lean SPEC (Spec/C10.lean: Yule-Walker / covariance residuals, the error the
 equations assign; evaluated in exact rationals by the driver on the binary64 coefficients) says that
 the implementation's output is worse than the correctly rounded run by more than 2^10: residuals,
-|error - sum_j a_j r_j|, a0 = 1, length, or when one of the two raises and the other returns.
+|error - sum_j a_j r_j|, a0 = 1, length, or when levinson_durbin / lpc.kautocor raises although the
+correctly rounded recursion meets no zero divisor.
 """
 import math, struct, sys
 from fractions import Fraction as F
@@ -231,10 +232,13 @@ def _spec_verdict(c, io, drv, m):
     """is the implementation's output worse, by the exact SPEC, than the correctly rounded run?"""
     what = _describe(c)
     if "err" in io or "err" in m:
-        a = ("raises " + io["err"]) if "err" in io else "returns"
-        b = ("raises " + m["err"]) if "err" in m else "returns"
-        return ["%s %s, while the code's own recursion in correctly rounded binary64 arithmetic %s "
-                "(a divisor is an exact float zero exactly when the model says so)" % (what, a, b)]
+        # the property says when levinson_durbin / lpc.kautocor must return (no division by zero in the
+        # recursion as run); for lpc.kcovar and for differing exception kinds the disagreement is a broken
+        # correspondence only
+        if c["fn"] in ("levinson", "kautocor") and "err" in io and "err" not in m:
+            return ["%s raises %s, while the code's own recursion in correctly rounded binary64 arithmetic meets no "
+                    "zero divisor and returns" % (what, io["err"])]
+        return []
     if c["fn"] in ("acorr", "lag_matrix"):
         xs = [F(unbits(b)) for b in c["bits"]]
         sp = drv.get("spec")
